@@ -327,6 +327,18 @@ def exMemo {V : Type} (recheck : Bool) (F : ExIn → V) : Memo ExIn (Int × Int)
     accept := fun i v => !recheck || (decide (v.1.scope = i.scope) && decide (v.1.outer = i.outer)),
     cacheable := fun _ => true, popOnReject := fun _ _ => false }
 
+/-- `Query._aggregate`: the value fetched from the database (`raw`) is POST-PROCESSED before it is returned — `None ↦ 0` for SUM, then
+    `converter.sql2py` (str ↦ date / datetime / time / timedelta / Decimal / UUID …).  `storeRaw = false` is the code as it is: the
+    post-processed value is what goes into `cache.query_results`; `storeRaw = true` stores the fetched value before the post-processing. -/
+def aggCall {I V : Type} [DecidableEq I] (storeRaw : Bool) (raw : I → V) (post : I → V → V) (t : Table I V) (i : I) : Table I V × V :=
+  match tget i t with
+  | some v => (t, v)
+  | none => (tset i (if storeRaw then raw i else post i (raw i)) t, post i (raw i))
+
+def aggRun {I V : Type} [DecidableEq I] (storeRaw : Bool) (raw : I → V) (post : I → V → V) : Table I V → List I → List V
+  | _, [] => []
+  | t, i :: rest => let r := aggCall storeRaw raw post t i; r.2 :: aggRun storeRaw raw post r.1 rest
+
 /-! ## Part 4: the per-session result cache -/
 namespace ResultCache
 
